@@ -2897,6 +2897,32 @@ impl<'a, K: Ord, V: PartialEq, I1: Iterator<Item = (K, &'a V)>, I2: Iterator<Ite
     }
 }
 
+/// verification hook (`--cfg sozu_verif`): public wrapper that *calls* the private
+/// merge-join so out-of-tree solver harnesses can reach it. No logic here.
+#[cfg(sozu_verif)]
+pub mod verif {
+    /// result kinds: 0 = Added, 1 = Removed, 2 = Changed
+    pub fn diff_map_pairs<'a>(
+        my: &'a [(u8, u8)],
+        other: &'a [(u8, u8)],
+    ) -> impl Iterator<Item = (u8, u8)> + 'a {
+        super::diff_map(
+            my.iter().map(|(k, v)| (*k, v)),
+            other.iter().map(|(k, v)| (*k, v)),
+        )
+        .map(|(k, r)| {
+            (
+                k,
+                match r {
+                    super::DiffResult::Added => 0,
+                    super::DiffResult::Removed => 1,
+                    super::DiffResult::Changed => 2,
+                },
+            )
+        })
+    }
+}
+
 #[cfg(test)]
 mod tests {
     use rand::{RngExt, rng, seq::SliceRandom};
